@@ -385,6 +385,20 @@ def gen_C16(tier, seed):
                     p.nofmt(lf, rng.choice(nfs), pl, kind=kind)
                 p.write(1, out_chunk=max(vrl, 1024))
                 progs.append(p.build())
+    # NO-FORMAT objects in several (named) sets, payloads added alternately: the records keep the order of the calls
+    for i in range(3 if tier == 'quick' else 12):
+        p = Prog(f'C16-sets-{i}', {'kind': 'nofmt-sets'})
+        p.file(1, vrl=[64, 8192, 128][i % 3])
+        lf = p.lf(1, fh_id='NOFMT-SETS')
+        p.origin(lf, name='O')
+        c = p.channel(lf, 'CHANNEL-A', data=np.arange(3, dtype='float64'))
+        p.frame(lf, 'FRAME-A', [c])
+        nfs = [p.add(lf, 'no_format', 'A', set_name='SET-A'), p.add(lf, 'no_format', 'B', set_name='SET-B'), p.add(lf, 'no_format', 'C'),
+               p.add(lf, 'no_format', 'A2', set_name='SET-A')]
+        for j in range(8):
+            p.nofmt(lf, nfs[[0, 1, 2, 0, 3, 1, 0, 2][(j + i) % 8]], bytes([65 + j]) * (3 + 5 * j))
+        p.write(1, out_chunk=8192)
+        progs.append(p.build())
     # payloads replaced after the record was added (before the first write, between two writes), bytearrays changed in place
     for i in range(6 if tier == 'quick' else 40):
         p = Prog(f'C16-replace-{i}', {'kind': 'nofmt-replace'})
